@@ -488,7 +488,7 @@ func (g *genCfg) genMethodCase(id string) *Case {
 		}
 	}
 	// the receiver variable gets another value between the evaluation of the method value / defer / go statement and the call
-	// (F07-15, repaired by 5c3ec57)
+	// (F07-15, repaired by ab0ab0c)
 	g.setRebind(c)
 	return c
 }
